@@ -1,5 +1,6 @@
 import ClusterVerif.Lemmas.C16
 import ClusterVerif.Lemmas.C16Req
+import ClusterVerif.Lemmas.C16Seq
 import ClusterVerif.Model.C16Source
 import ClusterVerif.Gen.C16
 
@@ -1016,5 +1017,124 @@ theorem gen_source_statusFromString : Gen.statusFromString = Expected.statusFrom
 theorem gen_source_isPinned : Gen.isPinned = Expected.isPinned := rfl
 theorem gen_source_toPinMode : Gen.toPinMode = Expected.toPinMode := rfl
 
+
+
+/-! ## Round 8c — the statement order of `Pin` / `Unpin`, interpreted (`Gen.pinSeq`, `Gen.unpinSeq`) -/
+section Round8c
+open CV.C16 CV.C16.Seq CV.C16.Dec
+
+/-- today's `Pin` body, read statement by statement from the source, IS the transcribed `pin` (all inputs) -/
+theorem gen_pinSeq_is_pin (i : Input) : (interp i Gen.pinSeq (init i)).map (·.1) = some (pin i) := interp_pin i
+
+/-- today's `Unpin` body likewise -/
+theorem gen_unpinSeq_is_unpin (i : Input) : (interp i Gen.unpinSeq (init i)).map (·.1) = some (unpin i) := interp_unpin i
+
+/-- what the driver compares with (the interpreted sequences) is the model the clause theorems are about -/
+theorem allowedSeq_eq (i : Input) (o : Output) : allowedSeq Gen.pinSeq Gen.unpinSeq i o = allowed i o :=
+  allowedSeq_allowed i o
+
+/-- … and so satisfies every clause, for all inputs of the domain -/
+theorem allowedSeq_holds (i : Input) (o : Output) (hw : wf i = true)
+    (ha : allowedSeq Gen.pinSeq Gen.unpinSeq i o = true) : holds i o = true :=
+  allowed_holds i o hw (by rw [← allowedSeq_eq]; exact ha)
+
+/-- direction 4: the deferred `updateInformerMetric` is armed exactly when the call went on to a request that
+changes the daemon's pin table (pin/add, pin/update, pin/rm) — never after a failed probe, the short-cut or a
+disabled unpin.  (Model statement over the regenerated sequence; the metric itself is not observed.) -/
+theorem gen_metric_iff_mutation (i : Input) (m : MOut) (b : Bool)
+    (h : runSeq Gen.pinSeq Gen.unpinSeq i = some (m, b)) : b = m.trace.any Req.mutates := by
+  unfold runSeq at h
+  cases hop : i.op with
+  | ls => rw [hop] at h; simp [lsOp] at h; obtain ⟨hm, hb⟩ := h; subst hm hb; split <;> simp [Req.mutates]
+  | unpin =>
+    rw [hop] at h
+    by_cases hd : i.unpinDisable = true
+    · simp [Gen.unpinSeq, interp, init, hd, done] at h; obtain ⟨hm, hb⟩ := h; subst hm hb; simp
+    · simp only [Gen.unpinSeq, interp, init, hd, rmPost] at h
+      revert h
+      cases clsAt false (i.beh 0) <;> simp [done, npTexts] <;>
+        (try (cases rmHonest i.table i.cid <;> simp [done, npTexts])) <;>
+        (intro hm hb; subst hm hb; simp [Req.mutates])
+  | pin =>
+    rw [hop] at h
+    revert h
+    cases h0 : lsCid i.table i.cid (typeRec i.depth) (clsFirst (i.beh 0)) with
+    | err => simp [Gen.pinSeq, interp, init, lookupArg, h0, done]; intro hm hb; subst hm hb; simp [Req.mutates]
+    | status s =>
+      by_cases hs : s = asked i.depth
+      · simp [Gen.pinSeq, interp, init, lookupArg, depthOf, isPinned, h0, hs, done]
+        intro hm hb; subst hm hb; simp [Req.mutates]
+      · cases hsrc : i.src with
+        | none =>
+          rcases addCall_ok_or_err i.table i.cid i.depth (i.beh 1) with ha | ha <;>
+            simp [Gen.pinSeq, interp, init, lookupArg, depthOf, cidOf, isPinned, h0, hs, hsrc, done, ha] <;>
+            (intro hm hb; subst hm hb; simp [Req.mutates, addReq])
+        | some f =>
+          cases h1 : lsCid i.table f i.modeRec (clsFirst (i.beh 1)) with
+          | err =>
+            rcases addCall_ok_or_err i.table i.cid i.depth (i.beh 2) with ha | ha <;>
+              simp [Gen.pinSeq, interp, init, lookupArg, depthOf, cidOf, isPinned, h0, hs, hsrc, h1, done, ha] <;>
+              (intro hm hb; subst hm hb; simp [Req.mutates, addReq])
+          | status s1 =>
+            by_cases h1r : s1 = .r
+            · simp [Gen.pinSeq, interp, init, lookupArg, depthOf, cidOf, isPinned, asked_neg1, h0, hs, hsrc, h1, h1r, done]
+              intro hm hb; subst hm hb; simp [Req.mutates]
+            · rcases addCall_ok_or_err i.table i.cid i.depth (i.beh 2) with ha | ha <;>
+                simp [Gen.pinSeq, interp, init, lookupArg, depthOf, cidOf, isPinned, asked_neg1, h0, hs, hsrc, h1, h1r, done, ha] <;>
+                (intro hm hb; subst hm hb; simp [Req.mutates, addReq])
+
+/-- edited bodies a realistic wrong change would produce -/
+def pinSeqProbeErrNil : List SeqStmt := Gen.pinSeq.set 1 (.ifErrReturn false)      -- `if err != nil { return nil }`
+def pinSeqNoErrCheck : List SeqStmt := Gen.pinSeq.eraseIdx 1                        -- the test of the probe's error dropped
+def pinSeqShortcutOtherDepth : List SeqStmt := Gen.pinSeq.set 2 (.ifPinnedReturnNil "-1")  -- short-cut tests IsPinned(-1)
+def unpinSeqWrongText : List SeqStmt := Gen.unpinSeq.set 3 (.ifErrTolerate ["\"pin is not pinned\""])
+
+/-- a pin whose probe fails on the wire (non-JSON 500), nothing pinned -/
+def exProbeFails : Input :=
+  { op := .pin, n := 1, cid := 0, depth := -1, modeRec := true, src := none, norig := 0,
+    unpinDisable := false, table := fun _ => .u, script := [Beh.of "nj"] }
+
+/-- a direct pin (depth 0) of a cid the daemon holds recursively, the look-up answered without the type filter -/
+def exHeldDirect : Input :=
+  { op := .pin, n := 1, cid := 0, depth := 0, modeRec := false, src := none, norig := 0,
+    unpinDisable := false, table := fun _ => .r, script := [Beh.of "oka"] }
+
+/-- an unpin of a cid the daemon does not hold, honestly refused with go-ipfs' "not pinned" text -/
+def exUnpinNp8c : Input :=
+  { op := .unpin, n := 1, cid := 0, depth := -1, modeRec := true, src := none, norig := 0,
+    unpinDisable := false, table := fun _ => .u, script := [Beh.of "np"] }
+
+example : wf exProbeFails = true ∧ wf exUnpinNp8c = true := by decide
+
+/-- 'treat a probe error as pinned': the interpreted model then reports success with nothing pinned
+(clause pin_success_sound false); today's sequence reports the error -/
+theorem probe_error_as_pinned_breaks :
+    (interp exProbeFails pinSeqProbeErrNil (init exProbeFails)).map (·.1.res) = some .ok ∧
+    cPinSound exProbeFails ⟨.ok, [], [], fun _ => .u⟩ = false ∧
+    (interp exProbeFails Gen.pinSeq (init exProbeFails)).map (·.1.res) = some .err := by decide
+
+/-- 'skip the probe result check': the failed probe is then followed by a pin/add -/
+theorem dropped_error_check_changes_trace :
+    (interp exProbeFails pinSeqNoErrCheck (init exProbeFails)).map (·.1.trace) =
+        some [.ls 0 true, .add 0 true none true] ∧
+    (interp exProbeFails Gen.pinSeq (init exProbeFails)).map (·.1.trace) = some [.ls 0 true] := by decide
+
+/-- the short-cut tested against another depth than the pin's: a cid held recursively passes for a direct pin -/
+theorem shortcut_other_depth_breaks :
+    (interp exHeldDirect pinSeqShortcutOtherDepth (init exHeldDirect)).map (·.1.res) = some .ok ∧
+    cPinSound exHeldDirect ⟨.ok, [], [], fun _ => .r⟩ = false ∧
+    (interp exHeldDirect Gen.pinSeq (init exHeldDirect)).map (·.1.trace) = some [.ls 0 false, .add 0 false none true] := by decide
+
+/-- 'not pinned' tolerated for the WRONG text: the honest refusal becomes an error (clause unpin_absent_ok false) -/
+theorem wrong_tolerated_text_breaks :
+    (interp exUnpinNp8c unpinSeqWrongText (init exUnpinNp8c)).map (·.1.res) = some .err ∧
+    cUnpinAbsentOk exUnpinNp8c ⟨.err, [], [], fun _ => .u⟩ = false ∧
+    (interp exUnpinNp8c Gen.unpinSeq (init exUnpinNp8c)).map (·.1.res) = some .ok := by decide
+
+/-- a statement the translator does not understand ends the interpretation: no output, nothing allowed -/
+theorem unknown_statement_fails_closed (i : Input) (t : String) (st : St) (rest : List SeqStmt) (hk : st.skip = 0) :
+    interp i (.unknown t :: rest) st = none := by simp [interp, hk]
+
+end Round8c
 
 end CV.C16
